@@ -245,3 +245,13 @@ NEUTRAL += [
         (LIB, "    pub fn process_keyevent(&mut self, ev: KeyEvent) -> Option<DecodedKey> {\n        match ev {", "    pub fn process_keyevent(&mut self, ev: KeyEvent) -> Option<DecodedKey> {\n        static PRESSES: core::sync::atomic::AtomicU16 = core::sync::atomic::AtomicU16::new(0);\n        if ev.state == KeyState::Down {\n            PRESSES.fetch_add(1, core::sync::atomic::Ordering::Relaxed);\n        }\n        match ev {"),
     ]),
 ]
+
+NEUTRAL += [
+    ("N17", "key-and-byte-arrays-spelled-out-in-the-source", [
+        (LIB, "impl KeyEvent {\n    pub const fn new(code: KeyCode, state: KeyState) -> KeyEvent {", "/// The home row, for documentation examples.\npub const HOME_ROW: [KeyCode; 8] = [KeyCode::A, KeyCode::S, KeyCode::D, KeyCode::F, KeyCode::J, KeyCode::K, KeyCode::L, KeyCode::Oem1];\n/// The bytes a keyboard answers to a reset with.\npub const RESET_REPLY: [u8; 2] = [0xFA, 0xAA];\n/// Pause, as Set 2 sends it.\npub const PAUSE_SET2: u64 = 0xE11477E1F014F077;\n\nimpl KeyEvent {\n    pub const fn new(code: KeyCode, state: KeyState) -> KeyEvent {"),
+    ]),
+    ("N18", "debug-assertions-without-side-effects", [
+        (LIB, "    pub fn add_bit(&mut self, bit: bool) -> Result<Option<u8>, Error> {\n        self.register |= (bit as u16) << self.num_bits;", "    pub fn add_bit(&mut self, bit: bool) -> Result<Option<u8>, Error> {\n        debug_assert!(self.num_bits < KEYCODE_BITS, \"frame register over-full\");\n        self.register |= (bit as u16) << self.num_bits;"),
+        (S2, "    fn advance_state(&mut self, code: u8) -> Result<Option<KeyEvent>, Error> {\n        match self.state {", "    fn advance_state(&mut self, code: u8) -> Result<Option<KeyEvent>, Error> {\n        debug_assert!(matches!(self.state, DecodeState::Start | DecodeState::Extended | DecodeState::Release | DecodeState::ExtendedRelease | DecodeState::Extended2 | DecodeState::Extended2Release));\n        match self.state {"),
+    ]),
+]
